@@ -80,10 +80,10 @@ func selfCheckFunction(w *World, c *Contract, dir string, k int) selfResult {
 		resList = []Val{res.ret}
 	}
 	type outProbe struct {
-		idx  int
-		kind string // int, uint, bool, bytes, err, skip
-		bits int
-		term string
+		idx   int
+		kind  string // int, uint, bool, bytes, err, skip
+		bits  int
+		term  string
 		elems []string
 	}
 	var outs []outProbe
